@@ -32,6 +32,13 @@ BIN = {'add': lambda a, x: a + x, 'radd': lambda a, x: x + a, 'sub': lambda a, x
 UN = {'pos': operator.pos, 'neg': operator.neg}
 
 
+
+def _is_reader(x):
+    """`reader[:, cols]` is itself a reader (the PUBLIC class; no private attribute is consulted, so renaming an
+    internal helper of the readers is not an alarm - refactoring C02 R1)"""
+    from phylib.io.traces import BaseEphysReader
+    return isinstance(x, BaseEphysReader)
+
 def _base(n, nch, dtype, mode='ids'):
     ids = np.arange(n * nch).reshape((n, nch))
     if mode == 'extreme':
@@ -160,7 +167,7 @@ def impl(case):
                 try:
                     with np.errstate(all='ignore'):
                         got = readers[s['reader']][item] if cols is None else readers[s['reader']][item, cols]
-                        if hasattr(got, '_append_op'):   # reader[:, cols] is itself a reader
+                        if _is_reader(got):   # reader[:, cols] is itself a reader
                             got = got[:]
                     outs.append(dict(got=_enc(got), exp=_enc(exp)))
                 except Exception as e:  # noqa
